@@ -333,6 +333,11 @@ func (r *RolloutReconciler) handleNormalRolling(c *RolloutContext) error {
 	}
 	// in case user modifies it with inappropriate value
 	util.CheckNextBatchIndexWithCorrect(c.Rollout)
+	// the release managers read c.NewStatus (a copy of the status), so the correction has to reach it too
+	if sub := c.NewStatus.GetSubStatus(); sub != nil &&
+		(sub.NextStepIndex <= 0 || sub.NextStepIndex > int32(len(c.Rollout.Spec.Strategy.GetSteps()))) {
+		sub.NextStepIndex = util.NextBatchIndex(c.Rollout, sub.CurrentStepIndex)
+	}
 
 	releaseManager, err := r.getReleaseManager(c.Rollout)
 	if err != nil {
